@@ -43,6 +43,17 @@ def term_lf(t):
         if x is None or y is None:
             return None
         return lf_add(x, y, 1 if t[1] == "add" else -1)
+    if t[0] == "bin" and t[3][0] == "c":
+        from ..linarith import divlike
+        x = term_lf(t[2])
+        if x is None:
+            return None
+        if t[1] in ("mul", "shl"):
+            k = t[3][1] if t[1] == "mul" else 1 << t[3][1]
+            return lf_scale(x, k) if k < (1 << 16) else None
+        dk = divlike(t[1], t[3][1])
+        if dk:
+            return (0, ((("dv", dk[0], x, dk[1]), 1),))
     return None
 
 
@@ -289,6 +300,17 @@ def run_config(ctx, rep, cfg):
                 d = lf_add(xl, off, -1)     # guard expression minus accessed offset
                 if lf_is_const(d) and ((p == "ult" and d[0] >= 0) or (p == "ule" and d[0] >= 1)):
                     okb = True
+            if not okb:
+                # general case: linear arithmetic over the dominating guards, with the defining inequalities of
+                # divisions / remainders (words = size / 4 ... key[4 * index + 3] with index < words)
+                from ..linarith import prove, fact_forms, defs, canon
+                lfo = lambda o: P.lf(o, {})
+                cons_ = []
+                for (p, x, y) in facts:
+                    cons_ += fact_forms(p, canon(f, lfo, term_lf(x)), canon(f, lfo, term_lf(y)))
+                goal = canon(f, lfo, lf_add(lf_add((0, ((szt, 1),)), off, -1), lf_const(1), -1))      # size - off - 1 >= 0
+                cons_ += defs(cons_ + [goal])
+                okb = prove(goal, cons_)
             inst = "%s:key[%s]" % (construct(f), lf_str(off))
             if okb:
                 rep.ok("C09.R2", inst, f.loc(i), "byte read at %s is dominated by a guard placing it below the key length" % lf_str(off), cfg=cn)
